@@ -11,6 +11,7 @@ import (
 	"os/exec"
 	"runtime/debug"
 	"sync"
+	"sync/atomic"
 	"time"
 
 	"verif/harness/vh"
@@ -96,8 +97,11 @@ func runSourceFresh(src string) implRes {
 
 func childRun(args []string) int {
 	debug.SetMaxStack(512 << 20)
+	// the protocol goes to a private duplicate of fd 1; whatever the interpreter prints straight to
+	// os.Stdout (var_dump, notices) ends in /dev/null instead of being read as an answer
+	proto := vh.ProtocolStdout()
 	in := bufio.NewReaderSize(os.Stdin, 1<<20)
-	out := bufio.NewWriterSize(os.Stdout, 1<<20)
+	out := bufio.NewWriterSize(proto, 1<<20)
 	penv := vh.NewEnv()
 	for {
 		line, err := in.ReadBytes('\n')
@@ -188,7 +192,11 @@ func (p *pool) close() {
 }
 
 // askWorker runs a single request on worker w; ok=false: the worker is gone.
+var reqSeq int64
+
 func askWorker(w *worker, rq runReq) (runResp, bool) {
+	want := rq.ID
+	rq.ID = int(atomic.AddInt64(&reqSeq, 1)) // every request of the run has its own id
 	jb, _ := json.Marshal(rq)
 	type rd struct {
 		line []byte
@@ -207,7 +215,12 @@ func askWorker(w *worker, rq runReq) (runResp, bool) {
 			return runResp{ID: rq.ID, Status: "died", Detail: "the interpreter process exited"}, false
 		}
 		var rs runResp
-		json.Unmarshal(r.line, &rs)
+		if err := json.Unmarshal(r.line, &rs); err != nil || rs.ID != rq.ID {
+			// not the answer to this request: the stream is out of step, drop the worker
+			w.kill()
+			return runResp{ID: want, Status: "died", Detail: "protocol out of step"}, false
+		}
+		rs.ID = want
 		return rs, true
 	case <-time.After(runTimeout):
 		w.kill()
